@@ -10,14 +10,15 @@ CONFIG = {
                   "the e2e `bytes` runs in modes up (application writes then closes; target must see all bytes then EOF) and down "
                   "(target writes then closes) on every carrier. Bounded time is a generous deadline, not a proved bound.",
     "technique": "Lean 4 proof (invariant over a transition system with data, all schedules) + scenario and e2e correspondence",
-    "components": [{"name": "pipe", "timeout": {"quick": 300, "thorough": 900}},
+    "components": [{"name": "readahead", "timeout": {"quick": 300, "thorough": 900}},
+                   {"name": "pipe", "timeout": {"quick": 300, "thorough": 900}},
                    {"name": "life", "corpus_only": True, "timeout": {"quick": 600, "thorough": 600}},
                    {"name": "burst", "timeout": {"quick": 600, "thorough": 1800}},
                    {"name": "bytes", "timeout": {"quick": 600, "thorough": 2400}},
                    {"name": "isolate", "timeout": {"quick": 600, "thorough": 1800}},
                    {"name": "socks", "timeout": {"quick": 600, "thorough": 1800}},
                    {"name": "stdiol", "timeout": {"quick": 600, "thorough": 1800}}],
-    "rule": "pipe: scripted write/close scenarios on the real PipeData and server per-stream path; bytes: payload sizes 1..65537 (thorough: "
+    "rule": "readahead: the real per-stream server path on an in-memory stream whose peer sends selection tokens and payload without waiting, in random write lengths (around the token boundaries, around and beyond the wrapper's 32 KiB buffer); bytes uplazy/echolazy: the same peer end to end (multistream's lazy client on a raw logical stream of the real session); pipe: scripted write/close scenarios on the real PipeData and server per-stream path; bytes: payload sizes 1..65537 (thorough: "
             "to 3 MiB) written then closed by the application (up) or the target (down), and echo, on tcp, tcp+tls, StartTLS, ws, stdio, "
             "udp/kcp, dns; isolate: a transfer in progress (and idle connections) while another connection of the same session ends cleanly / is reset / floods / is refused on another listener; stdiol: the standard-streams listener (application = a pair of pipes wrapped as Start wraps stdin/stdout) in modes echo / up / down; socks: n connections through the built-in SOCKS5 channel (real CONNECT to a recording target) in modes echo / "
             "source (target writes and closes first) / sink (application writes and closes first) with a goroutine census; non-trivial = delivered intact with EOF; distinct = distinct op line",
